@@ -1,7 +1,7 @@
 #!/bin/bash
 # Runs every seeded change against the checks of the property it targets plus closely related ones,
 # each on its own scratch copy of /repo's working tree (outside /repo and /verif, removed afterwards).
-# usage: [MATRIX_ONLY=<regex over seed ids>] tools/matrix.sh [parallelism]   -> one line per (change, check) on stdout
+# usage: [MATRIX_ONLY=<regex over seed ids>] [MATRIX_OWN=1] tools/matrix.sh [parallelism]   -> one line per (change, check) on stdout
 cd /verif
 declare -A REL=([C01]="C01 C02 C03 C05" [C02]="C01 C02 C03 C07" [C03]="C01 C02 C03 C04" [C05]="C05 C01 C18" [C06]="C06 C07" [C07]="C07 C02 C06" [C08]="C08 C18 C09" [C09]="C09 C06" [C10]="C10 C06 C07" [C14]="C14" [C15]="C15 C17" [C17]="C17 C15" [C18]="C18 C15" [C04]="C04 C02 C03" [C11]="C11 C06 C07" [C13]="C13 C06 C07" [C19]="C19" [C20]="C20" [C12]="C12 C13 C06")
 one() {
@@ -21,5 +21,6 @@ for d in seeded/*/; do
   sd=$(basename $d); prop=${sd%%-*}
   [ -f $d/patch.diff ] || continue
   if [ -n "$MATRIX_ONLY" ] && ! echo "$sd" | grep -Eq -- "$MATRIX_ONLY"; then continue; fi
+  if [ -n "$MATRIX_OWN" ]; then echo "$sd $prop"; continue; fi   # MATRIX_OWN=1: only the check of the property the change was written against
   for p in ${REL[$prop]}; do echo "$sd $p"; done
 done | xargs -P ${1:-4} -L 1 bash -c 'one $0 $1'
